@@ -28,7 +28,8 @@ class Ctx:
         self.t0 = time.time()
         base = "/dev/shm" if os.path.isdir("/dev/shm") and os.access("/dev/shm", os.W_OK) else tempfile.gettempdir()
         self.scratch = tempfile.mkdtemp(prefix="verif-%s-" % prop, dir=base)
-        atexit.register(lambda: shutil.rmtree(self.scratch, ignore_errors=True))
+        if not os.environ.get("VERIF_KEEP"):      # (debugging aid: keep the generated behaviours and traces)
+            atexit.register(lambda: shutil.rmtree(self.scratch, ignore_errors=True))
         self.cov = dict(states=0, transitions=0, traces_validated_against_impl=0, samples=[], evaluations=0,
                         distinct_nontrivial=0, rule="", exhaustive=False, mc_runs=[], replay_runs=[], trace_runs=[],
                         foreign_divergence=0, known_findings=[], binding_selftest=None)
@@ -224,7 +225,8 @@ def run_json(cmd, timeout=3600, env=None, cwd=None):
     except subprocess.TimeoutExpired:
         raise Inconclusive("%s did not finish within %ss" % (" ".join(cmd[:3]), timeout))
     if p.returncode != 0:
-        raise Inconclusive("%s exited %d:\n%s" % (" ".join(cmd[:3]), p.returncode, (p.stderr or p.stdout)[-3000:]))
+        fatal = re.search(r"fatal error: [^\n]*", p.stderr or "")
+        raise Inconclusive("%s exited %d:\n%s%s" % (" ".join(cmd[:3]), p.returncode, (fatal.group(0) + "\n...\n") if fatal else "", (p.stderr or p.stdout)[-3000:]))
     lines = [l for l in p.stdout.split("\n") if l.startswith("{")]      # (not splitlines: U+0085, U+2028, FF inside a JSON string are not line ends)
     if not lines:
         raise Inconclusive("%s printed no report:\n%s" % (cmd[0], p.stdout[-2000:] + p.stderr[-2000:]))
